@@ -121,6 +121,7 @@ DeviationNames ==
       "Odt!TrackedDeletionLeaks",    \* text:tracked-changes paragraphs are walked like body text
       "Html!NestedTableRepeated",    \* rows of a nested table are collected as rows of the outer table too
       "Epub!TableTextDropped",       \* text inside tables is neither in the text nor (nested) in the tables
+      "Epub!ColspanShifts",          \* a cell with colspan=2 is one cell: the cells right of it move one column left
       "Rtf!DeletedLeaks",            \* {\deleted ...} groups are not skipped
       "Xlsx!UnnamedHeaderPlaceholder",
       "Odt!TextboxParagraphsGlued",
@@ -358,18 +359,27 @@ CellSepOK(cell, fmt, oc, dev) ==
 \* does the table's first row look like a caption row (exactly one non-empty cell, more than one column)?
 CaptionRow(row, fmt) == Len(row) > 1 /\ Cardinality({j \in DOMAIN row : CellIds(row[j], fmt) # <<>>}) = 1
 
+\* a row as the EPUB reader sees it (as built, "Epub!ColspanShifts"): a cell covered by a horizontal merge (written as
+\* colspan="2" on its left neighbour) is not a cell of its own, so everything right of it moves one column to the left
+Squeeze(row) == LET keep == SelectSeq([j \in DOMAIN row |-> j], LAMBDA j : ~(j > 1 /\ row[j] = <<>> /\ row[j - 1] # <<>>))
+                IN [k \in DOMAIN keep |-> row[keep[k]]]
+
+RowMatches(row, i, fmt, g, dev) ==
+    \A j \in 1..Max2(Len(row), Len(g.grid[i])) :                                   \* ragged rows: padding is don't-care,
+       LET src == IF j <= Len(row) THEN CellIds(row[j], fmt) ELSE <<>>              \* missing cells count as empty
+           oc  == IF j <= Len(g.grid[i]) THEN g.grid[i][j] ELSE EmptyCell
+       IN \/ (IsIds(oc) /\ oc.v = src                                             \* cell (i,j) in place,
+                /\ (j <= Len(row) => CellSepOK(row[j], fmt, oc, dev)))              \* its paragraphs not glued
+          \/ ("Xlsx!HeaderPlaceholder" \in dev /\ fmt = "xlsx" /\ i = 1 /\ src = <<>> /\ oc.k = "lit")
+          \/ ("Epub!CellInlineSpaced" \in dev /\ fmt = "epub" /\ oc.k = "lit" /\ oc.v2 = src)
+
 GridMatches(t, fmt, g, dev) ==
     LET rows == IF "Xlsx!TableNameRowSkipped" \in dev /\ fmt = "xlsx" /\ t[2] # <<>> /\ CaptionRow(t[2][1], fmt)
                 THEN Tail(t[2]) ELSE t[2] IN
     /\ Len(g.grid) = Len(rows)                                                     \* r rows
     /\ \A i \in DOMAIN rows :
-         \A j \in 1..Max2(Len(rows[i]), Len(g.grid[i])) :                          \* ragged rows: padding is don't-care,
-            LET src == IF j <= Len(rows[i]) THEN CellIds(rows[i][j], fmt) ELSE <<>>  \* missing cells count as empty
-                oc  == IF j <= Len(g.grid[i]) THEN g.grid[i][j] ELSE EmptyCell
-            IN \/ (IsIds(oc) /\ oc.v = src                                          \* cell (i,j) in place,
-                     /\ (j <= Len(rows[i]) => CellSepOK(rows[i][j], fmt, oc, dev)))   \* its paragraphs not glued
-               \/ ("Xlsx!HeaderPlaceholder" \in dev /\ fmt = "xlsx" /\ i = 1 /\ src = <<>> /\ oc.k = "lit")
-               \/ ("Epub!CellInlineSpaced" \in dev /\ fmt = "epub" /\ oc.k = "lit" /\ oc.v2 = src)
+         \/ RowMatches(rows[i], i, fmt, g, dev)
+         \/ ("Epub!ColspanShifts" \in dev /\ fmt = "epub" /\ RowMatches(Squeeze(rows[i]), i, fmt, g, dev))
     /\ g.dim[1] = Len(g.grid)                                                      \* get_dim() = shape of get_table()
     /\ g.dim[2] = (IF g.grid = <<>> THEN 0
                    ELSE LET m == CHOOSE i \in DOMAIN g.grid : \A j \in DOMAIN g.grid : Len(g.grid[j]) <= Len(g.grid[i])
